@@ -104,6 +104,11 @@ FNS = [
  ("AccConstantLoad", "access.rs", "<Constant<T> as Access<T>>::load"),
  ("LibMap", "lib.rs", "ArcSwapAny<T,S>::map"),
  ("LibGuardDeref", "lib.rs", "<Guard<T,S> as Deref>::deref"),
+ ("RwFromInner", "strategy/rw_lock.rs", "<T as Protected<T>>::from_inner"),
+ ("RwIntoInner", "strategy/rw_lock.rs", "<T as Protected<T>>::into_inner"),
+ ("RwLoad", "strategy/rw_lock.rs", "<RwLock<()> as InnerStrategy<T>>::load"),
+ ("RwWaitForReaders", "strategy/rw_lock.rs", "<RwLock<()> as InnerStrategy<T>>::wait_for_readers"),
+ ("RwCas", "strategy/rw_lock.rs", "<RwLock<()> as CaS<T>>::compare_and_swap"),
 ]
 def main():
     q = os.path.join('/tmp', 'gen_tie_query.lean')
